@@ -26,6 +26,7 @@ class Node:
     ast: object = None
     cont: str = ''      # for duplicated finally/with_exit copies: which continuation this copy serves
     label: str = ''
+    item: object = None  # with_enter: the ast.withitem (for the names it binds)
 
     def text(self):
         if self.label:
@@ -242,6 +243,7 @@ class CFG:
             return self._block(s.body, preds, ctx)
         item, rest = items[0], items[1:]
         n = self._new('with_enter', item.context_expr)
+        self.nodes[n].item = item
         self.by_ast.setdefault(id(item), []).append(n)
         self.by_ast.setdefault(id(s), []).append(n)
         self._connect(preds, n)
